@@ -35,7 +35,7 @@ func (w *World) newExec(fn *ssa.Function, spec *FuncSpec, beh *Behavior) *Exec {
 	if x.bv && spec.Theory == "" {
 		x.theory = "none"
 	}
-	x.gfacts = append(x.gfacts, Not(App("isEOFp", SBool, IntLit(0))))
+	x.gfacts = append(x.gfacts, Not(App("isEOFp", SBool, IntLit(0))), Eq(App("errtag", SInt, IntLit(0)), IntLit(0)))
 	x.assume("A-SSA")
 	x.assume("A-SOLVER")
 	if x.theory != "none" {
@@ -278,4 +278,86 @@ func (g *OblGroup) Status() string {
 		}
 	}
 	return st
+}
+
+// VerifyLemma: a lemma is a pure obligation over the theory and other definitions (no code).
+func (w *World) VerifyLemma(l *LemmaSpec) *FuncReport {
+	rep := &FuncReport{Key: l.Pkg + ".lemma." + l.Name, Assumed: map[string]bool{}}
+	spec := &FuncSpec{Pkg: l.Pkg, Name: l.Name, Key: rep.Key, Props: l.Props, Theory: l.Theory, Options: map[string]string{}, Loops: map[int]*LoopSpec{}}
+	beh := &Behavior{Name: "lemma", Props: l.Props}
+	x := w.newExec(nil, spec, beh)
+	if l.Theory == "none" {
+		x.bv = true
+	}
+	defer func() {
+		for k := range x.assumed {
+			rep.Assumed[k] = true
+		}
+		rep.Obls = append(rep.Obls, x.obls...)
+		rep.Errors = append(rep.Errors, x.errs...)
+		if r := recover(); r != nil {
+			switch v := r.(type) {
+			case unsupportedErr:
+				rep.Errors = append(rep.Errors, v.msg)
+			case cevalErr:
+				rep.Errors = append(rep.Errors, v.msg)
+			default:
+				panic(r)
+			}
+		}
+	}()
+	st := &State{Heap: map[*Obj]Value{}}
+	env := &CEnv{x: x, st: st, vars: map[string]Value{}, pkg: l.Pkg}
+	for _, p := range l.Params {
+		var v Value
+		switch {
+		case strings.HasPrefix(p.Type, "bv"):
+			var n int
+			fmt.Sscanf(p.Type, "bv%d", &n)
+			v = Fresh(p.Name, SBV(n))
+		case p.Type == "int" || p.Type == "Int":
+			v = Fresh(p.Name, SInt)
+		case p.Type == "Bytes" || p.Type == "string":
+			v = Fresh(p.Name, SBytes)
+		case p.Type == "bool":
+			v = Fresh(p.Name, SBool)
+		default:
+			t := w.resolveType(l.Pkg, p.Type)
+			if t == nil {
+				rep.Errors = append(rep.Errors, "lemma parameter "+p.Name+": unknown type "+p.Type)
+				return rep
+			}
+			v = x.freshValue(st, t, p.Name, true)
+		}
+		env.vars[p.Name] = v
+	}
+	for _, c := range l.Requires {
+		t, err := env.evalBool(c.E)
+		if err != nil {
+			rep.Errors = append(rep.Errors, err.Error())
+			return rep
+		}
+		st.Assume(t)
+	}
+	rep.Vacuity = append(rep.Vacuity, &Obligation{Name: shortKey(rep.Key) + ".vacuity[requires]", Kind: "vacuity",
+		Facts: append(append([]*Term(nil), x.gfacts...), st.Facts...), Goal: TFalse, Theory: x.theory, Func: rep.Key, Behavior: "lemma"})
+	for i, c := range l.Ensures {
+		t, err := env.evalBool(c.E)
+		if err != nil {
+			rep.Errors = append(rep.Errors, err.Error())
+			continue
+		}
+		label := c.Label
+		if label == "" {
+			label = fmt.Sprint(i)
+		}
+		props := c.Props
+		if len(props) == 0 {
+			props = l.Props
+		}
+		x.fn = nil
+		x.obls = append(x.obls, &Obligation{Name: fmt.Sprintf("%s.lemma.%s[%s]", shortKey(l.Pkg), l.Name, label), Kind: "lemma", Props: props, Func: rep.Key, Behavior: "lemma",
+			Facts: append(append([]*Term(nil), x.gfacts...), st.Facts...), Goal: t, Text: c.Text, Theory: x.theory})
+	}
+	return rep
 }
